@@ -1,6 +1,7 @@
 package main
 
 import (
+	"bytes"
 	"encoding/json"
 	"fmt"
 	"os"
@@ -99,16 +100,7 @@ var knownIDs09 = []string{"", "C09/json-c1-controls", "C09/json-nel", "C09/yaml-
 func knownClass09(enc int, s *specs.Spec) int {
 	strs := specStrings(s)
 	if enc == 0 {
-		for _, x := range strs {
-			if hasC1(x) {
-				return 1
-			}
-		}
-		for _, x := range strs {
-			if hasNEL(x) {
-				return 2
-			}
-		}
+		// repaired defect D20: the library escapes what the reader refuses; no string is set aside for .json files
 		return 0
 	}
 	for _, x := range strs {
@@ -268,9 +260,52 @@ func strClass09(str string) int {
 	return 0
 }
 
+// libLiteral09: the literal the library's own JSON writer produces for str: a minimal Spec with str as the value of the annotation
+// example.com/note is written through Cache.WriteSpec under a .json name and the literal is cut out of the file (from the quote
+// after the key to the first quote not preceded by an odd number of backslashes).
+var litDir09 string
+var litCache09 *cdi.Cache
+
+func libLiteral09(str string) ([]byte, bool) {
+	if litCache09 == nil {
+		return nil, false
+	}
+	sp := &specs.Spec{Version: "0.6.0", Kind: "vendor.com/class", Annotations: map[string]string{"example.com/note": str},
+		Devices: []specs.Device{{Name: "d", ContainerEdits: specs.ContainerEdits{Env: []string{"A=b"}}}}}
+	var werr error
+	if p, _ := hx.Guard(func() { werr = litCache09.WriteSpec(sp, "lit.json") }); p || werr != nil {
+		return nil, false
+	}
+	data, err := os.ReadFile(filepath.Join(litDir09, "lit.json"))
+	if err != nil {
+		return nil, false
+	}
+	key := []byte(`"example.com/note":`)
+	i := bytes.Index(data, key)
+	if i < 0 || i+len(key) >= len(data) || data[i+len(key)] != '"' {
+		return nil, false
+	}
+	start := i + len(key)
+	for j := start + 1; j < len(data); j++ {
+		if data[j] == '\\' {
+			j++
+			continue
+		}
+		if data[j] == '"' {
+			return data[start : j+1], true
+		}
+	}
+	return nil, false
+}
+
 func addStr09(s *hx.Suite, class string, str string) {
-	lit, err := json.Marshal(str)
-	if err != nil || len(lit) < 2 {
+	// the writer under test is the library's (encoding/json followed by its own escaping of what the Spec reader refuses),
+	// not encoding/json alone
+	lit, okLit := libLiteral09(str)
+	if !okLit || len(lit) < 2 {
+		s.Add(hx.Case{Term: hx.C("CaseStr", hx.S(str), hx.B(utf8.ValidString(str)), hx.S("<<no literal: WriteSpec failed>>"), hx.None, "0"),
+			Desc: map[string]interface{}{"string": hx.JS(str), "problem": "Cache.WriteSpec of a Spec carrying the string as an annotation value failed"},
+			Class: class, Nontrivial: true, Key: "str|" + str, Cost: strCost09})
 		return
 	}
 	escaped := string(lit[1 : len(lit)-1])
@@ -288,12 +323,9 @@ func addStr09(s *hx.Suite, class string, str string) {
 	} else if p {
 		desc["problem"] = "panic: " + msg
 	}
-	k := strClass09(str)
+	k := 0 // no string class is set aside any more (repaired defect D20)
 	valid := utf8.ValidString(str)
-	known := knownIDs09[k]
-	if !valid {
-		known = ""
-	}
+	known := ""
 	// coqc spends its time elaborating string literals: write each distinct string once
 	term := ""
 	if escaped == str {
@@ -445,15 +477,18 @@ func longStrings09() []string {
 }
 
 func genC09(r *hx.R, tier, scratch string) (*hx.Suite, error) {
-	s := &hx.Suite{Property: "C09", Imports: []string{"Base", "SpecModel", "Doc", "Decode", "Codec", "JsonString", "Judge09"}, CaseType: "case09", Judge: "judge09", Shard: 60,
+	s := &hx.Suite{Property: "C09", Imports: []string{"Base", "SpecModel", "Doc", "Decode", "Codec", "JsonString", "JsonStringFix", "Judge09"}, CaseType: "case09", Judge: "judge09", Shard: 60,
 		Preamble: "Definition rep_s (c : string) (n : N) : string := N.iter n (String.append c) \"\".", // chunkLiterals writes long runs of one byte with it
 		
-		Rule: "every Spec is written through Cache.WriteSpec under a .json name, a .yaml name and an extension-less name, read back with cdi.ReadSpec and loaded through the cache; structure stream: valid Specs over pairwise combinations of the 32 optional fields with 1-3 devices and list elements, and numeric extremes of every integer field; scalar stream: strings (code points U+0000..U+3000 sampled in quick / all in thorough, alone and embedded, U+FFFE/U+FFFF, non-BMP, a YAML-sensitive dictionary, newlines and blanks in every position) placed in every kind of string position (scalar member, list element, map value, env value); string stream (no files: json.Marshal of the string, then sigs.k8s.io/yaml UnmarshalStrict of the literal as a member value): every code point U+0000..U+FFFF (quick: in runs of 16 consecutive code points, alone where anything is treated specially and for a random 1/32; thorough: each alone as well), code points embedded in seven contexts, a sample beyond the BMP, random strings over an alphabet of every specially treated character, long strings, U+0085 followed by document indicators, and byte strings that are not valid UTF-8; non-trivial: all cases (each is a distinct Spec x encoding or a distinct string)"}
+		Rule: "every Spec is written through Cache.WriteSpec under a .json name, a .yaml name and an extension-less name, read back with cdi.ReadSpec and loaded through the cache; structure stream: valid Specs over pairwise combinations of the 32 optional fields with 1-3 devices and list elements, and numeric extremes of every integer field; scalar stream: strings (code points U+0000..U+3000 sampled in quick / all in thorough, alone and embedded, U+FFFE/U+FFFF, non-BMP, a YAML-sensitive dictionary, newlines and blanks in every position) placed in every kind of string position (scalar member, list element, map value, env value); string stream (the literal Cache.WriteSpec writes into a .json file for the string as an annotation value, cut out of the file, then sigs.k8s.io/yaml UnmarshalStrict of the literal as a member value): every code point U+0000..U+FFFF (quick: in runs of 16 consecutive code points, alone where anything is treated specially and for a random 1/32; thorough: each alone as well), code points embedded in seven contexts, a sample beyond the BMP, random strings over an alphabet of every specially treated character, long strings, U+0085 followed by document indicators, and byte strings that are not valid UTF-8; non-trivial: all cases (each is a distinct Spec x encoding or a distinct string)"}
 	idx := 0
 	strCost09 = 0.025
 	if tier != "thorough" {
 		strCost09 = 0.05
 	}
+	litDir09 = filepath.Join(scratch, "strlit")
+	_ = os.MkdirAll(litDir09, 0o755)
+	litCache09, _ = cdi.NewCache(cdi.WithSpecDirs(litDir09), cdi.WithAutoRefresh(false))
 	// --- structure: pairwise option vectors
 	vectors := pairwise05(r)
 	nStruct := 10
